@@ -764,7 +764,7 @@ def shrink(binary, src, coq, want_kind):
             return False
         return r[2] == want_kind
 
-    small = common.shrink_list(pairs, fails, max_rounds=40)
+    small = common.shrink_list(pairs, fails, max_rounds=12)
     return [src[0]] + [a for a, _ in small], [b for _, b in small]
 
 
@@ -856,7 +856,7 @@ def run(chk):
                     chk.known_hits.append(k["id"])
                 continue
             kind = "impl-vs-ref"
-        if kind == "impl-vs-ref" and found < 3:
+        if kind == "impl-vs-ref" and found < 2:
             ss, cc = shrink(binary, s, c, "impl-vs-ref") if len(c) > 1 else (s, c)
             rr = evaluate(binary, [(ss, cc)], "c09rep")[0]
             chk.violation({
